@@ -377,14 +377,16 @@ def literal_names(ctx):
     (base / "cwd").mkdir(parents=True)
     (base / "home").mkdir()
     (base / "cwd" / "c17lit_t.py").write_text("import os\ndef interesting(a, p):\n    return b'keep' in open(os.environ['C17_TARGET'], 'rb').read()\n")
-    names = ["~/t.txt", "$HOME/t.txt", "${C17VAR}.txt", "*.txt", "%HOME%.txt", "~c17user/t.txt"]
+    (base / "cwd" / "my tests").mkdir()
+    (base / "cwd" / "my tests" / "c17lit_t.py").write_text((base / "cwd" / "c17lit_t.py").read_text())
+    names = ["~/t.txt", "$HOME/t.txt", "${C17VAR}.txt", "*.txt", "%HOME%.txt", "~c17user/t.txt", "a b.txt", "'q'.txt"]
     cwd = os.getcwd()
     old_env = {k: os.environ.get(k) for k in ("HOME", "C17VAR", "C17_TARGET")}
     os.environ["HOME"], os.environ["C17VAR"] = str(base / "home"), "t"
     os.chdir(base / "cwd")
     try:
         for name in names:
-            for via in ("last", "--testcase"):
+            for via in ("last", "--testcase", "spaced-test-path"):
                 decoys = [base / "home" / "t.txt", base / "cwd" / "t.txt", base / "cwd" / "other.txt"]
                 for p in decoys:
                     p.write_bytes(b"decoy\nkeep\n")
@@ -394,6 +396,8 @@ def literal_names(ctx):
                 sys.modules.pop("c17lit_t", None)
                 os.environ["C17_TARGET"] = str(target)
                 argv = ["c17lit_t.py", name] if via == "last" else ["--testcase=" + name, "c17lit_t.py", "other.txt"]
+                if via == "spaced-test-path":      # the test is the file at the given path, also when the path has a blank in it
+                    argv = ["my tests/c17lit_t.py", "-x", "two words", name]
                 case = dict(argv=argv, literal_name=name)
                 ctx.evaluations += 1
                 ctx.bump("literal-names")
